@@ -114,6 +114,12 @@ CHECKS = {
         text="NOT PROVED: the specification of this property is the interpreter itself, so no contract within reach of the deductive engine expresses it. Discharged deductively (rule engine): each of the class, function and argparse emitters builds exactly one element per entry of the parameter mapping, in order. "
              "BOUNDED — the only place the property is decided: the emitted source is compiled, executed and introspected (class attributes and annotations, inspect.signature, a populated ArgumentParser incl. choices/default/required/help and parse_args) over the executable slice of IR(n) x 3 emitters x 3 styles. One known finding (int Literal choices without type=int).",
         note="Claimed as a bounded stand-in, not as a proof; listed here rather than under not_applicable because the stand-in is labelled and the shape contracts are real obligations."),
+    "C05": dict(
+        category="other", design_ref="DESIGN.md §5 C05",
+        technique="contract-based deductive verification of a block contract on ensure_has_primary_key (E1: symbolic-key map whose unknown base entries are materialised on read, string VCs); run-time round-trip / agreement contract over IR(n) for the property itself",
+        text="PROVED (lemma, all column sets): in the branch of ensure_has_primary_key taken when no column is marked '[PK]', exactly one column is written or updated and its description then starts with '[PK]' — so primary-key inference yields one key, never two. "
+             "BOUNDED only — the property itself: each of the three variants parses back to the same columns (names, order, types, nullability, defaults, descriptions up to trailing full stops, [PK]/[FK] markers), the three agree, and every emission carries exactly one primary_key=True — over the SQL-representable slice of IR(n) x 3 styles x force_pk_id. One known finding (the public hybrid parser rejects the hybrid emission).",
+        note="The bridge between the branch condition (a filter/map pipeline) and 'no column is marked' is an assumed idiom spec, listed in the evidence."),
 }
 
 NA_REASON = "check not built yet (work in progress; see DESIGN.md for the plan)"
